@@ -13,6 +13,12 @@ from pyvc.runner import BoundedResult
 from .common import (Vals, z_leap, z_yd, z_D, z_M, z_md, z_N, I, N_MIN, N_1900, N_MAX, date_N, date_sod,
                      selfcheck_specs, py_N)
 
+MANIFEST_ENTRY = {
+    "category": "proof",
+    "text": "date.py and the date conversions/arithmetic of the value classes and natives are proved against the closed-form Gregorian day number for every date 0001..9999 and every integer offset (loop invariants, z3); time of day through IEEE doubles is covered by a bounded enumeration on the real code",
+    "note": "IEEE doubles idealised (rnd model); datetime.replace trusted; VC generator trusted (canaries on every run)",
+    "technique": "deductive verification: pyvc VCs from the real AST + z3/cvc5; bounded enumeration for float time-of-day",
+}
 PROPERTY = "C17"
 LEVEL = "proof"
 TRUSTED = [
